@@ -22,5 +22,5 @@ CONSTANTS
   DevArr = FALSE
   DevNul = FALSE
   DevEmpty = FALSE
-INVARIANTS RoundTrip EncoderShape Refines DevExplained PaethOK RowOK EmitInv
+INVARIANTS DisturbFails RoundTrip EncoderShape Refines DevExplained PaethOK RowOK EmitInv
 CHECK_DEADLOCK FALSE
